@@ -155,6 +155,9 @@ def main(argv):
                 getattr(callable_, "__name__", "") in ("replace", "rename") and is_fs_primitive(callable_, arg0):
             # this process is held between writing its temporary file and renaming it
             time.sleep(int(variant.split(":")[1]) / 1000.0)
+        elif mode == "race" and kind == "CALL" and variant.startswith("jitter:") and rnd.random() < 0.3:
+            # longer yields (processes pre-empted for several milliseconds, a loaded machine)
+            time.sleep(rnd.random() * int(variant.split(":")[1]) / 1000.0)
         elif mode == "race" and kind == "CALL" and rnd.random() < 0.3:
             time.sleep(rnd.random() * 0.003)
 
